@@ -264,13 +264,25 @@ def run_task(task):
                     if eng.satisfiable(phi) is not None:
                         out['reach_sat'][rname] = True
             if res.diff is not None and do_diff and bad is None:
-                model = eng._ensure_model()
+                dopts = res.diff[2] if len(res.diff) > 2 else {}
+                model = None
+                if dopts.get('nice'):
+                    try:
+                        model = _nice_model(eng, z3.BoolVal(True), res.inputs)
+                    except Exception:
+                        model = None
+                    if model is None:
+                        out['diff_skipped'] = out.get('diff_skipped', 0) + 1
+                else:
+                    model = eng._ensure_model()
+            if res.diff is not None and do_diff and bad is None and model is not None:
                 conc = concretise(model, res.inputs)
-                realfn, symval = res.diff
+                realfn, symval = res.diff[0], res.diff[1]
+                tol = dopts.get('tol', 1e-9)
                 try:
                     rv = realfn(conc)
                     sv = concretise(model, symval)
-                    if not _same(rv, sv):
+                    if not _same(rv, sv, tol):
                         out['val_mismatch'].append(dict(obligation=oblname, params=params, inputs=conc,
                                                         real=_js(rv), symbolic=sv))
                     else:
@@ -403,22 +415,55 @@ def run_check(modname, pid, tier, meta):
         obls = [o for o in obls if o.name in only.split(',')]
     opts = dict(pid=pid, tier=tier, diff=os.environ.get('VERIF_NODIFF') is None)
     tasks = []
+    only_cubes = os.environ.get('VERIF_CUBES')
     for o in obls:
         for ci in range(len(o.cubes)):
+            if only_cubes and str(ci) not in only_cubes.split(','):
+                continue
             tasks.append((o.weight, (modname, o.name, ci, opts)))
     # heavier first; seed permutes ties only
     tasks.sort(key=lambda t: -t[0])
     tasks = [t[1] for t in tasks]
     results = []
+    early_stop = False
     nproc = min(NPROC, max(1, len(tasks)))
     if nproc == 1 or os.environ.get('VERIF_SERIAL'):
         for t in tasks:
             results.append(run_task(t))
     else:
         ctx = multiprocessing.get_context('fork')
+        budget = float(os.environ.get('VERIF_BUDGET_S', '0') or 0)
         with ctx.Pool(nproc, maxtasksperchild=None) as pool:
-            for r in pool.imap_unordered(run_task, tasks, chunksize=1):
+            it = pool.imap_unordered(run_task, tasks, chunksize=1)
+            while True:
+                try:
+                    r = it.next(timeout=5)
+                except multiprocessing.TimeoutError:
+                    if budget and time.time() - t0 > budget:
+                        results.append(dict(obl='-', cube=-1, paths=0, outcomes={}, violations=[], samples=[],
+                                            error='INCONCLUSIVE wall budget of %ds exhausted' % budget, validated=0,
+                                            val_mismatch=[], reach_sat={}, vacuity_witness=0, stats={}, executed=[], wall_s=0))
+                        pool.terminate()
+                        break
+                    continue
+                except StopIteration:
+                    break
                 results.append(r)
+                # stop early once a violation has been confirmed on the real code
+                if r['violations'] and not os.environ.get('VERIF_ALL_VIOLATIONS'):
+                    hit = False
+                    for rec in r['violations']:
+                        try:
+                            ok, _ = mod.replay(rec)
+                        except BaseException:
+                            ok = False
+                        if ok:
+                            hit = True
+                            break
+                    if hit:
+                        early_stop = True
+                        pool.terminate()
+                        break
     # aggregate
     errors = [r for r in results if r['error']]
     stats = {}
@@ -455,6 +500,8 @@ def run_check(modname, pid, tier, meta):
     # vacuity guards
     for o in obls:
         po = per_obl.get(o.name, dict(paths=0, outcomes={}, reach={}))
+        if early_stop:
+            break
         if not [r for r in results if r['obl'] == o.name and r['error']]:
             for ex in o.expect:
                 if po['outcomes'].get(ex, 0) == 0:
